@@ -1,0 +1,68 @@
+//go:build verif
+
+package keeper
+
+// Machine-checked contracts for the govc verifier (/verif). Comment-only; compiled only with -tags verif.
+
+// Limit-bid deposits (C11): a depositor can take out at most their own outstanding deposit, in the deposited asset, minus the
+// stated fee; the recorded total moves with the individual deposit; custody moves by exactly what is paid in or out.
+
+//@ func (k Keeper) DepositLimitAuctionBid
+//@   property C11
+//@   let u0 = k.GetUserLimitBidData(ctx, DebtTokenId, CollateralTokenId, PremiumDiscount, bidder)
+//@   let p0 = k.GetLimitBidProtocolDataByAssetID(ctx, DebtTokenId, CollateralTokenId)
+//@   let am = modaddr("auctionsV2")
+//@   requires #valid-msg: validaddr(bidder) && amount.Amount > 0 && PremiumDiscount >= 0 && PremiumDiscount < pow2(64)
+//@   requires #accounts: addr(bidder) != am
+//@   requires #keyed: u0.1 ==> u0.0.BidderAddress == bidder && u0.0.DebtToken.Denom == K("asset").GetAsset(ctx, DebtTokenId).0.Denom
+//@   requires #total-keyed: p0.1 ==> p0.0.DebtAssetId == DebtTokenId && p0.0.CollateralAssetId == CollateralTokenId
+//@   letpost u1 = k.GetUserLimitBidData(ctx, DebtTokenId, CollateralTokenId, PremiumDiscount, bidder)
+//@   letpost p1 = k.GetLimitBidProtocolDataByAssetID(ctx, DebtTokenId, CollateralTokenId)
+//@   ensures #c11-deposit-recorded: result == nil ==> u1.1 && u1.0.DebtToken.Denom == amount.Denom && u1.0.DebtToken.Amount == ite(u0.1, u0.0.DebtToken.Amount, 0) + amount.Amount
+//@   ensures #c11-total-moves-with-deposit: result == nil ==> p1.1 && p1.0.BidValue == ite(p0.1, p0.0.BidValue, 0) + amount.Amount
+//@   ensures #c11-custody: result == nil ==> bal(am, amount.Denom) == old(bal(am, amount.Denom)) + amount.Amount && bal(addr(bidder), amount.Denom) == old(bal(addr(bidder), amount.Denom)) - amount.Amount
+
+//@ func (k Keeper) CancelLimitAuctionBid
+//@   property C11
+//@   let u0 = k.GetUserLimitBidData(ctx, DebtTokenId, CollateralTokenId, PremiumDiscount, bidder)
+//@   let p0 = k.GetLimitBidProtocolDataByAssetID(ctx, DebtTokenId, CollateralTokenId)
+//@   let fee = k.GetAuctionParams(ctx).0.ClosingFee
+//@   let am = modaddr("auctionsV2")
+//@   let d = u0.0.DebtToken.Denom
+//@   requires #valid-msg: validaddr(bidder) && PremiumDiscount >= 0 && PremiumDiscount < pow2(64)
+//@   requires #accounts: addr(bidder) != am
+//@   requires #fee-range: fee >= 0 && fee <= ONE
+//@   requires #deposit-nonneg: u0.1 ==> u0.0.DebtToken.Amount >= 0
+//@   requires #keyed: u0.1 ==> u0.0.BidderAddress == bidder
+//@   requires #total-keyed: u0.1 ==> p0.1 && p0.0.DebtAssetId == DebtTokenId && p0.0.CollateralAssetId == CollateralTokenId
+//@   letpost u1 = k.GetUserLimitBidData(ctx, DebtTokenId, CollateralTokenId, PremiumDiscount, bidder)
+//@   letpost p1 = k.GetLimitBidProtocolDataByAssetID(ctx, DebtTokenId, CollateralTokenId)
+//@   ensures #c11-own-deposit-only: result == nil ==> u0.1
+//@   ensures #c11-paid-deposit-minus-fee: result == nil ==> bal(addr(bidder), d) == old(bal(addr(bidder), d)) + u0.0.DebtToken.Amount - trunc(decMul(fee, dec(u0.0.DebtToken.Amount)))
+//@   ensures #c11-custody: result == nil ==> bal(am, d) == old(bal(am, d)) - (u0.0.DebtToken.Amount - trunc(decMul(fee, dec(u0.0.DebtToken.Amount))))
+//@   ensures #c11-other-denoms-untouched: result == nil ==> forall dd :: dd != d ==> bal(am, dd) == old(bal(am, dd))
+//@   ensures #c11-record-removed: result == nil ==> !u1.1
+//@   ensures #c11-total-moves-with-deposit: result == nil ==> p1.0.BidValue == p0.0.BidValue - u0.0.DebtToken.Amount
+
+//@ func (k Keeper) WithdrawLimitAuctionBid
+//@   property C11
+//@   let u0 = k.GetUserLimitBidData(ctx, DebtTokenId, CollateralTokenId, PremiumDiscount, bidder)
+//@   let p0 = k.GetLimitBidProtocolDataByAssetID(ctx, DebtTokenId, CollateralTokenId)
+//@   let wfee = k.GetAuctionParams(ctx).0.WithdrawalFee
+//@   let cfee = k.GetAuctionParams(ctx).0.ClosingFee
+//@   let am = modaddr("auctionsV2")
+//@   let d = u0.0.DebtToken.Denom
+//@   requires #valid-msg: validaddr(bidder) && amount.Amount > 0 && PremiumDiscount >= 0 && PremiumDiscount < pow2(64)
+//@   requires #accounts: addr(bidder) != am
+//@   requires #fee-range: wfee >= 0 && wfee <= ONE && cfee >= 0 && cfee <= ONE
+//@   requires #deposit-nonneg: u0.1 ==> u0.0.DebtToken.Amount >= 0
+//@   requires #keyed: u0.1 ==> u0.0.BidderAddress == bidder
+//@   requires #total-keyed: u0.1 ==> p0.1 && p0.0.DebtAssetId == DebtTokenId && p0.0.CollateralAssetId == CollateralTokenId
+//@   letpost u1 = k.GetUserLimitBidData(ctx, DebtTokenId, CollateralTokenId, PremiumDiscount, bidder)
+//@   letpost p1 = k.GetLimitBidProtocolDataByAssetID(ctx, DebtTokenId, CollateralTokenId)
+//@   ensures #c11-own-deposit-only: result == nil ==> u0.1 && amount.Amount <= u0.0.DebtToken.Amount
+//@   ensures #c11-deposited-asset-only: result == nil ==> forall dd :: dd != d ==> bal(am, dd) == old(bal(am, dd))
+//@   ensures #c11-custody-out-at-most-amount: result == nil ==> bal(am, d) >= old(bal(am, d)) - amount.Amount && bal(am, d) <= old(bal(am, d))
+//@   ensures #c11-paid-to-depositor: result == nil ==> bal(addr(bidder), d) - old(bal(addr(bidder), d)) == old(bal(am, d)) - bal(am, d)
+//@   ensures #c11-record-moves-with-withdrawal: result == nil && amount.Amount < u0.0.DebtToken.Amount ==> u1.1 && u1.0.DebtToken.Amount == u0.0.DebtToken.Amount - amount.Amount
+//@   ensures #c11-total-moves-with-deposit: result == nil ==> p1.0.BidValue == p0.0.BidValue - amount.Amount
